@@ -52,11 +52,16 @@ func init() {
 	})
 }
 
+// findCall lists the ordinary calls of callee in f. Deferred and go calls are
+// left out: they do not execute where they stand, so they must not count in
+// ordering rules.
 func (p *Prog) findCall(f *ssa.Function, callee string) []ssa.CallInstruction {
 	var out []ssa.CallInstruction
 	for _, cs := range p.callsIn(f) {
 		if cs.Callee == callee {
-			out = append(out, cs.Instr)
+			if _, ok := cs.Instr.(*ssa.Call); ok {
+				out = append(out, cs.Instr)
+			}
 		}
 	}
 	return out
